@@ -77,6 +77,7 @@ SimpLe(l, r) ==
 SimpLt(l, r) == IF IsC(l) /\ IsC(r) THEN BoolC(QLt(QOf(l), QOf(r))) ELSE Op("lt", <<l, r>>)
 
 \* ---- arithmetic
+LastConst(fs) == CHOOSE j \in 1..Len(fs) : IsC(fs[j]) /\ \A k \in (j + 1)..Len(fs) : ~IsC(fs[k])
 RECURSIVE PlusParts(_)
 \* flattens nested sums; result [sum, sub, c]: terms to add, terms to subtract, constant
 PlusParts(args) ==
@@ -86,9 +87,10 @@ PlusParts(args) ==
          IN  IF IsC(x) THEN LET p == PlusParts(rest) IN [p EXCEPT !.c = QAdd(@, QOf(x))]
              ELSE IF x.op = "plus" THEN PlusParts(rest \o x.a)
              ELSE IF x.op = "minus" THEN LET p == PlusParts(rest) IN [p EXCEPT !.sum = <<x.a[1]>> \o @, !.sub = <<x.a[2]>> \o @]
-             ELSE IF x.op = "times" /\ IsC(x.a[Len(x.a)]) /\ QLt(QOf(x.a[Len(x.a)]), <<0, 1>>)
-                  THEN LET k == QOf(x.a[Len(x.a)])
-                           others == SubSeq(x.a, 1, Len(x.a) - 1)
+             ELSE IF x.op = "times" /\ (\E j \in 1..Len(x.a) : IsC(x.a[j])) /\ QLt(QOf(x.a[LastConst(x.a)]), <<0, 1>>)
+                  THEN LET jc == LastConst(x.a)         \* since fix 41 the constant factor is found at any position
+                           k == QOf(x.a[jc])
+                           others == SubSeq(x.a, 1, jc - 1) \o SubSeq(x.a, jc + 1, Len(x.a))
                            newargs == IF k = <<-1, 1>> THEN others ELSE Append(others, NumC(TyF(x), <<-k[1], k[2]>>))
                            p == PlusParts(rest)
                        IN  [p EXCEPT !.sub = <<MkNary("times", newargs, IntC(1))>> \o @]
@@ -116,7 +118,8 @@ TimesParts(args) ==
 
 \* The code sorts the factors by node id, so where the collected constant ends up depends on what was
 \* created first in the environment: constLast = TRUE puts it last (symbols older than constants), FALSE
-\* first.  The position matters to walk_plus, which only looks at the LAST factor of a product.
+\* first.  The position used to matter to walk_plus, which only looked at the LAST factor of a product (a
+\* history dependence beyond argument order, C14; repaired by fix 41 - both orders are still explored).
 SimpTimes(args, constLast) ==
     LET ty == TyF(args[1])
         p == TimesParts(args)
